@@ -25,7 +25,6 @@ func ContainsFold(s, substr string) (ok bool) {
 	}
 
 	first, _ := utf8.DecodeRuneInString(substr)
-	firstFolded := unicode.SimpleFold(first)
 
 	for i := 0; i != -1 && len(s) >= len(substr); {
 		if strings.EqualFold(s[:substrLen], substr) {
@@ -33,10 +32,28 @@ func ContainsFold(s, substr string) (ok bool) {
 		}
 
 		i = strings.IndexFunc(s[1:], func(r rune) (eq bool) {
-			return r == first || r == firstFolded
+			return equalFoldRune(r, first)
 		})
 
 		s = s[1+i:]
+	}
+
+	return false
+}
+
+// equalFoldRune reports whether a and b are equal under simple Unicode
+// case-folding.  Unlike a single call to [unicode.SimpleFold], it walks the
+// whole folding orbit of b, which may contain more than two runes, for example
+// 'k', 'K', and the Kelvin sign.
+func equalFoldRune(a, b rune) (ok bool) {
+	if a == b {
+		return true
+	}
+
+	for f := unicode.SimpleFold(b); f != b; f = unicode.SimpleFold(f) {
+		if f == a {
+			return true
+		}
 	}
 
 	return false
